@@ -26,6 +26,7 @@ func GenFamilies(c *hmain.Ctx, which int, fams []Fam) {
 	}
 	RunJobs(jobs, 40)
 	for _, j := range jobs {
+		Stats(c.W.Count, j)
 		c.W.Case(j.Stream, which, j.Case, j.Obs, true)
 	}
 }
